@@ -553,6 +553,16 @@ fn execute(run: &mut Run, rep: &mut Report) -> Result<(), String> {
     opts.max_connections = 4000;
     opts.max_buffers = 4000;
     let mut old = Worker::start(opts.clone());
+    {
+        let (sh2, probe) = (sh.clone(), old.probe.clone());
+        let _ = std::thread::Builder::new().name(format!("c10-loopclock-{}", plan.case)).spawn(move || {
+            while !sh2.abort.load(Ordering::SeqCst) && sh2.t0.elapsed() < Duration::from_secs(120) {
+                let sample = (sh2.us(), probe.snapshot().iteration);
+                sh2.loop_samples.lock().unwrap().push(sample);
+                std::thread::sleep(Duration::from_millis(10));
+            }
+        });
+    }
     let mut state = ConfigState::new();
     let mut keep_channels = Vec::new();
     let mut new: Option<Worker> = None;
@@ -1020,6 +1030,25 @@ fn finish_traffic(
     Ok(())
 }
 
+/// A hung exchange is decided without a wall-clock argument when the backend had handed the whole
+/// final response of every request of the exchange to the kernel (loopback: available to the worker
+/// at once) and the old worker then completed at least 20 event-loop iterations, each a chance to
+/// relay it, before the client gave up: Some(iterations).
+fn hung_decided(sh: &Shared, r: &InflightResult) -> Option<u64> {
+    let ids: &[u64] = match r.plan.phase {
+        Phase::KeepAlive => &r.ids[r.ids.len().saturating_sub(1)..],
+        _ => &r.ids,
+    };
+    let mut last = 0;
+    for id in ids {
+        last = last.max(sh.seen_of(*id).final_written_us?);
+    }
+    if ids.is_empty() {
+        return None;
+    }
+    sh.loop_iterations_between(last, r.end_us).filter(|n| *n >= 20)
+}
+
 fn judge_inflight(run: &mut Run, rep: &mut Report, plan: &Plan, results: &[InflightResult], ack_us: Option<u64>, old_killed: bool) {
     let sh = run.sh.clone();
     for r in results {
@@ -1047,6 +1076,17 @@ fn judge_inflight(run: &mut Run, rep: &mut Report, plan: &Plan, results: &[Infli
         if r.plan.phase == Phase::H2Streams {
             let f = format!("{:?}", r.fate);
             rep.obs(&format!("B.h2_outcome/{}/body_{}/gate_step_{}", f.split('(').next().unwrap_or(""), r.plan.resp_len, plan.release_at[r.plan.gate.min(1)]), 1);
+            if let (Fate::Completed, Some(ms)) = (&r.fate, r.detail["ms_from_release_to_end"].as_u64()) {
+                let bucket = match ms {
+                    0..=49 => "<50ms",
+                    50..=199 => "<200ms",
+                    200..=999 => "<1s",
+                    1000..=2999 => "<3s",
+                    _ => ">=3s",
+                };
+                rep.obs(&format!("B.h2_transfer_time_after_release/{bucket}"), 1);
+                rep.obs_max("B.h2_transfer_ms_after_release", ms);
+            }
         }
         if r.detail["interim_responses"].as_array().is_some_and(|a| !a.is_empty()) {
             rep.obs(&format!("B.interim_response_relayed_during_drain/{ph}"), 1);
@@ -1076,6 +1116,18 @@ fn judge_inflight(run: &mut Run, rep: &mut Report, plan: &Plan, results: &[Infli
                 extra,
                 false,
             ),
+            Fate::Hung(why) if hung_decided(&sh, r).is_some() => {
+                let n = hung_decided(&sh, r).unwrap_or(0);
+                let mut extra = extra;
+                extra["old_worker_loop_iterations_after_the_backend_wrote_the_whole_response"] = json!(n);
+                rep.obs("B.hung_exchanges_decided_by_the_loop_clock", 1);
+                run.find(
+                    &format!("in_flight_request_hung/{ph}"),
+                    &format!("an in-flight exchange ({ph}) neither completed nor was closed although the backend had written the whole response and the old worker ran {n} event-loop iterations after that: {why}"),
+                    extra,
+                    false,
+                )
+            }
             Fate::Hung(why) => run.find(&format!("in_flight_request_hung/{ph}"), &format!("an in-flight exchange ({ph}) neither completed nor was closed: {why}"), extra, true),
             Fate::Cut(why) => {
                 let exited_first = ack_us.is_some_and(|a| a <= r.end_us + 200_000);
